@@ -165,9 +165,23 @@ def boundary_sources():
         out.append((f"gen/mdcomment_{n}", f"// A paragraph line that is definitely longer than the comment width of eighty columns, padded {a} so that it must be wrapped.\n// - a list item at the very end of the comment, long enough to need wrapping after the tail of the paragraph above it\nfn f() {{}}\n\n/// Documentation paragraph that is definitely longer than the comment width of eighty columns {a} and must be wrapped as well.\n/// 1. a numbered item at the very end, also long enough to need wrapping once the paragraph above has been wrapped\nfn g() {{}}\n"))
         out.append((f"gen/uchain_{n}", f"fn f() {{\n    let ok = привет_мир_{a} || ещё_один_идентификатор || третий_идентификатор || x;\n    let s = \"строка из кириллицы {a}\" == имя_переменной && другое_имя_переменной && z;\n}}\n"))
         out.append((f"gen/parenattr_{n}", f"fn f() {{\n    let x = (#[allow(unused)] ({a} + bbbbbbbb));\n    let y = ((#[cfg(unix)] (({a} - cccccccc))));\n    foo((#[allow(unused_parens)] ({a})), 2);\n}}\n"))
+        out.append((f"gen/skipattr_{n}", f"impl S {{\n    #[rustfmt::skip]\n    /* keep the table aligned */\n    #[inline]\n    fn foo{a}(&self) {{}}\n\n    #[allow(unused)]\n    // a line comment\n\n    #[rustfmt::skip]\n    fn bar(&self)   {{}}\n}}\n\n#[derive(Debug)]\n// between attributes\n#[rustfmt::skip]\nstruct T{a} {{ a:u8 }}\n"))
+        out.append((f"gen/deepmac_{n}", f"mod a {{\n    mod b {{\n        mod c {{\n            mod d {{\n                macro_rules! m{a} {{\n                    () => {{\n                        1\n                    }};\n                    ($x:expr) => ($x + {a});\n                }}\n                fn f() {{\n                    let v = m{a}!(1);\n                }}\n            }}\n        }}\n    }}\n}}\n"))
         out.append((f"gen/tuple1_{n}", f"fn f((a,): (u32,), t: (u8,)) -> (u32,) {{\n    let (x,) = t;\n    let v{a} = match t {{\n        (y,) => y,\n    }};\n    for (k,) in items {{\n        g(|(c,)| c, Some((k,)), (x,), [(v{a},)]);\n    }}\n    if let Some((w,)) = opt {{\n        return ({a},);\n    }}\n    (a,)\n}}\n"))
         out.append((f"gen/quals_{n}", f"pub(crate) const unsafe extern \"C\" fn {a}<'a, T>(x: &'a mut T) -> impl Iterator<Item = &'a T> + 'a {{}}\npub async unsafe fn g{a}(self: Pin<&mut Self>) {{}}\n"))
     return out
+
+
+def reindent(text, unit):
+    """the same text with every leading group of four spaces replaced by `unit` (a tab, three
+    spaces, one space): layouts a formatter meets in the wild and has to survive"""
+    out = []
+    for ln in text.split("\n"):
+        k = 0
+        while ln.startswith("    ", 4 * k):
+            k += 1
+        out.append(unit * k + ln[4 * k:])
+    return "\n".join(out)
 
 
 def kindmix_sources():
